@@ -548,3 +548,73 @@ def c07(ctx, replay):
                     "non-trivial = distinct (records, stage)",
                assumptions=["a template reading a label assigned in the same stage sees the snapshot taken after the renames",
                             "only SGR sequences (ESC [ params m) are used in decolorize cases; rename with identical source and target is left open"])
+
+
+@prop("C18")
+def c18(ctx, replay):
+    import glob
+    import hashlib
+    import subprocess
+    q = V.tla_str
+    maxn = T(ctx, 4, 5)
+    hbin = V.build_harness(ctx, race=True)
+    racedir = ctx.path("race")
+    os.makedirs(racedir, exist_ok=True)
+    env = {"GORACE": "log_path=%s/race halt_on_error=0 exitcode=0" % racedir}
+    trace = ctx.path("trace.ndjson")
+    cases = ctx.path("cases.ndjson")
+    ncases = 0
+    if replay:
+        V.run_harness(ctx, hbin, ["docker", "-cases", os.path.abspath(replay), "-out", trace, "-rand", 0, "-opt", "mode=determinism"], env=env)
+    else:
+        V.model_check(ctx, "schedules", "MC_Schedules", dict(MaxN=maxn, Reps=T(ctx, 2, 4)), invariants=["AllOrdersReachJoin"], cases_file=cases)
+        V.model_check(ctx, "merge-orders", "MC_Merge", dict(NC=3, MaxRec=1, TSMax=2), invariants=["SlotsIndexAddressed", "Conservation"],
+                      properties=["SlotWriteOnce"])
+        V.model_check(ctx, "key-orders", "MC_SeriesKey", dict(MaxLabels=2, ValSet=q("tiny")), invariants=["KeyIsLabelSet"])
+        ncases = sum(1 for _ in open(cases))
+        V.run_harness(ctx, hbin, ["docker", "-cases", cases, "-out", trace, "-rand", T(ctx, 25, 300), "-seed", ctx.seed, "-opt", "mode=determinism"], env=env)
+    bad, scns, nev = V.validate_trace(ctx, "Trace_Determinism", trace, chunk_events=20000)
+    verdict = V.classify_rejections(ctx, "C18", "Trace_Determinism", hbin, "docker", bad, scns, extra_args=["-opt", "mode=determinism"])
+    # the race detector observed every forced schedule
+    races = [f for f in glob.glob(racedir + "/race*") if "DATA RACE" in open(f, errors="replace").read()]
+    if races:
+        d = os.path.join(V.VERIF, "replays", "C18")
+        os.makedirs(d, exist_ok=True)
+        rp = os.path.join(d, "race-%s.ndjson" % hashlib.sha1(open(races[0], "rb").read()).hexdigest()[:10])
+        import shutil
+        shutil.copyfile(cases if not replay else os.path.abspath(replay), rp)
+        shutil.copyfile(races[0], rp + ".report.txt")
+        verdict.violations.append((rp, "data race reported by the race detector under the forced schedules"))
+    # end to end: rendered bytes of the plugin's own renderer under every completion order
+    nprobe = 0
+    if not replay:
+        t2 = ctx.path("trace-e2e.ndjson")
+        run_probe(ctx, "e2e", None, t2, T(ctx, 40, 400))
+        bad2, scns2, nev2 = V.validate_trace(ctx, "Trace_Determinism", t2, chunk_events=20000)
+        nprobe = len(scns2)
+        nev += nev2
+
+        def reexec(cf_, tf):
+            run_probe(ctx, "e2e", cf_, tf, 0)
+        v2 = V.classify_rejections(ctx, "C18", "Trace_Determinism", None, None, bad2, scns2, reexec=reexec)
+        verdict.violations += v2.violations
+        verdict.total_violating += v2.total_violating
+        verdict.unreproduced += v2.unreproduced
+        bad = bad + bad2
+    runs = 0
+    for sid, lines in scns:
+        runs += sum(1 for l in lines if '"ev":"Run"' in l[:40] or l.startswith('{"ev":"Run"'))
+    cov = dict(traces_validated_against_impl=len(scns) + nprobe - len(bad), evaluations=len(scns) + nprobe, events=nev, cases_from_model=ncases,
+               cases_random=len(scns) - ncases if not replay else 0, distinct_nontrivial=len(scns) + nprobe, runs_under_race_detector=runs,
+               race_reports=len(races), e2e_render_scenarios=nprobe,
+               rule="step 1: every completion order of the concurrent opens reaches the same joined state (MC_Schedules), the merge "
+                    "reads an index-addressed, write-once slice (MC_Merge) and the grouping key ignores materialisation order "
+                    "(MC_SeriesKey); step 2/3: for 2..%d containers EVERY completion order (up to %d) is forced on Engine.Eval through the "
+                    "gated fake daemon, each %d times (map order), for a log query, a range aggregation and a grouped sum, with the "
+                    "harness built with -race; random inventories (2-5 containers, 3 Docker labels each); the full path through "
+                    "renderResult is repeated in an overlay test for all orders; TLC checks that every run equals the first (result set, "
+                    "outcome, rendered bytes); a race report is a violation; every scenario is non-trivial (>= 2 orders)" % (maxn, 120 if maxn == 5 else 24, T(ctx, 2, 4)),
+               samples=V.sample_scenarios(scns, 2), exhaustive=True, rejected_scenarios=len(bad))
+    return V.finish(ctx, "C18", verdict, cov,
+                    ["goroutine interleavings are those the race detector observes under the forced completion orders",
+                     "map iteration orders are sampled by repetition", "rendered output compared with colour off and distinct timestamps"])
